@@ -16,6 +16,7 @@ import (
 	"strings"
 
 	"github.com/formancehq/numscript/internal/interpreter"
+	"github.com/formancehq/numscript/internal/verifsim/c12"
 	"github.com/formancehq/numscript/internal/verifsim/core"
 	"github.com/formancehq/numscript/internal/verifsim/exec"
 	"github.com/formancehq/numscript/internal/verifsim/gen"
@@ -33,6 +34,9 @@ type TaskSpec struct {
 	Reps       int               `json:"reps"`
 	Faults     []store.Fault     `json:"faults,omitempty"` // only with a private store
 	Noise      bool              `json:"noise,omitempty"`  // this task runs the noise script (another ParseResult) instead
+	// Ledger, when set, is this task's own store content (then its store is private): runs on
+	// one parsed script against DIFFERENT ledgers must not see each other's balances
+	Ledger map[string]map[string]string `json:"ledger,omitempty"`
 }
 
 type Case struct {
@@ -113,7 +117,11 @@ func copyVars(m map[string]string) map[string]string {
 }
 
 func (c Case) inputsFor(t TaskSpec) gen.Inputs {
-	return gen.Inputs{Vars: t.Vars, Balances: c.Ledger.Balances, Meta: c.Ledger.Meta, Flags: t.Flags}
+	bal := c.Ledger.Balances
+	if t.Ledger != nil {
+		bal = t.Ledger
+	}
+	return gen.Inputs{Vars: t.Vars, Balances: bal, Meta: c.Ledger.Meta, Flags: t.Flags}
 }
 
 func (c Case) plan(t TaskSpec) store.Plan {
@@ -233,7 +241,7 @@ func Execute(c Case, keepTrace bool, ch chooser) (res Result) {
 			flagsSnap[t.FlagsGroup] = canonFlags(flagsInst[t.FlagsGroup])
 		}
 		var st *store.SimStore
-		if len(t.Faults) > 0 {
+		if len(t.Faults) > 0 || t.Ledger != nil {
 			st = store.New(c.inputsFor(t), c.plan(t)) // private
 		} else if x, ok := stores[t.StoreGroup]; ok {
 			st = x
@@ -252,7 +260,7 @@ func Execute(c Case, keepTrace bool, ch chooser) (res Result) {
 			t.Reps = 1 // the fault plan counts the calls of one run on the private store
 			c.Tasks[i].Reps = 1
 		}
-		if len(t.Faults) > 0 {
+		if len(t.Faults) > 0 || t.Ledger != nil {
 			stores[-1-i] = st
 		}
 		pr := p.PR
@@ -498,6 +506,30 @@ func genCase(r *rand.Rand) (Case, chooser) {
 		}
 	}
 	k = len(c.Tasks)
+	// a share of cases gives some tasks their own ledger content (same accounts, other amounts)
+	if k > 1 && r.IntN(4) == 0 {
+		for i := 1; i < len(c.Tasks); i++ {
+			if r.IntN(2) == 0 && len(c.Tasks[i].Faults) == 0 {
+				own := map[string]map[string]string{}
+				for _, a := range core.SortedKeys(g.In.Balances) {
+					own[a] = map[string]string{}
+					for _, as := range core.SortedKeys(g.In.Balances[a]) {
+						own[a][as] = fmt.Sprint(r.IntN(500))
+					}
+				}
+				c.Tasks[i].Ledger = own
+			}
+		}
+	}
+	// a share of cases runs an ill-formed script (a labelled defect of the C12 engine): errors
+	// must be as repeatable and as private to their run as results are
+	if r.IntN(8) == 0 {
+		pi := gen.PI{Prog: c.Prog, In: gen.Inputs{Vars: copyVars(g.In.Vars), Balances: c.Ledger.Balances, Meta: c.Ledger.Meta}}
+		before := canonVars(pi.In.Vars)
+		if _, ok := c12.ApplyDefect(r, &pi, false); ok && canonVars(pi.In.Vars) == before {
+			c.Prog = pi.Prog
+		}
+	}
 	// a share of cases pads values with whitespace (the caller's map must come back untouched,
 	// whatever the interpreter makes of such values)
 	if r.IntN(8) == 0 {
